@@ -1274,6 +1274,10 @@ func (p *Printer) command(cmd Command, redirs []*Redirect) (startRedirs int) {
 		// Forbid "foo()\n{ bar; }"
 		p.wantNewline = p.wantNewline || p.funcNextLine
 		p.nestedStmts(cmd.Stmts, cmd.Last, cmd.Rbrace)
+		if p.minify && len(cmd.Stmts) == 0 {
+			// "{}" is a word; the empty block of mksh and zsh needs the space
+			p.w.WriteByte(' ')
+		}
 		p.semiRsrv("}", cmd.Rbrace)
 	case *IfClause:
 		p.ifClause(cmd, false)
